@@ -223,7 +223,11 @@ def fam_mem(rng, tier):
     widths = [("i8", "i8"), ("u8", "u8"), ("i16", "i16"), ("u16", "u16"), ("i32", "i32"), ("u32", "u32"), ("i64", "i64")]
     k = 0
     for fn, syn in forms:
-        sel = widths if tier == "thorough" else [widths[(k + j) % len(widths)] for j in (0, 3)]
+        # quick: three functions in all (they all hit the same known store-to-load forwarding defect at -O2, and a failing
+        # obligation costs minutes: CBMC builds the counterexample trace through the whole interpreter state)
+        # thorough: two widths per form (every width and both signs appear over the six forms)
+        sel = [widths[(2 * k + 1) % len(widths)], widths[(2 * k + 4) % len(widths)]] if tier == "thorough" else \
+              ([widths[(2 * k + 1) % len(widths)]] if k in (0, 3, 5) else [])
         for t, _ in sel:
             # store v narrow, load it back with extension, add a full-width load of the containing word (aliasing)
             g.func("stld_%s_%s" % (t, fn), "i64, p:p, i64:ix, i64:v",
@@ -334,6 +338,8 @@ def fam_mix(rng, tier):
     g.func("shifts", "i64, i64:a, i64:n", ["local i64:r, i64:t", "lsh r, a, n", "ursh t, a, n", "xor r, r, t", "rsh t, a, 7", "add r, r, t", "urshs t, a, 3", "uext32 t, t", "add r, r, t", "ret r"], n="0..63")
     g.func("divmod", "i64, i64:a, i64:b", ["local i64:q, i64:r", "udiv q, a, b", "umod r, a, b", "add q, q, r", "ret q"], b="1..1000", heavy="1", tier="thorough")
     g.func("mul3", "i64, i64:a, i64:b", ["local i64:r", "mul r, a, %d" % rng.choice([3, 5, 9, 24, 1000]), "muls b, b, 16", "ext32 b, b", "add r, r, b", "ret r"], heavy="1")
+    # 32-bit multiply by 2^32 with a symbolic operand: known strength-reduction defect at -O2/-O3 (C02 gen.O2.i3_MULS_imm4294967296)
+    g.func("muls_pow2_32", "i32, i64:a", ["local i64:r", "muls r, a, 4294967296", "ret r"], tier="thorough")
     g.func("ld_arith", "ld, ld:x, ld:y", ["local ld:r", "ldadd r, x, y", "ldneg r, r", "ret r"], fp="1", tier="thorough")
     return g
 
